@@ -853,6 +853,9 @@ def run_C10(ctx):
         k = (c["ep"], tuple(c["kinds"]))
         c["var"] = grp.get(k, 0)
         grp[k] = c["var"] + 1
+        if c["ep"] == "fe" and c["var"] % 4 == 3:
+            # every fourth frontend schedule negotiates the protocol features without SET_FEATURES having acknowledged bit 30
+            c["negorder"] = "pf_first"
     # uncontrolled multi-thread stress (hooks only record)
     for ep, ks in (("fe", ["reply"] * 4), ("fe", ["reply", "ack", "reply", "ack", "ack", "reply"]), ("fe", ["reply", "ff", "ff", "reply"]),
                    ("be", ["ack"] * 8), ("be", ["ff"] * 4), ("gpu", ["reply", "ff", "ack", "reply", "ff", "reply", "ack", "ff"])):
